@@ -27,7 +27,7 @@ PROPS = {
     "C04": dict(
         rig="R", mix=[("R", ""), ("R", ""), ("S", "etcd"), ("S", "mysql")], runs=dict(quick=2400, thorough=60000),
         nontrivial_probes=["multi_shard_barrier_fired", "drop_event_ts_checked", "stop_issued", "S_drop_checked"],
-        must_hit=["multi_shard_barrier_fired", "stop_issued", "S_drop_checked", "S_drop_liveness_checked", "S_dropped_while_down", "S_partition_drop_checked", "restart"],
+        must_hit=["multi_shard_barrier_fired", "stop_issued", "S_drop_checked", "S_drop_liveness_checked", "S_dropped_while_down", "S_partition_drop_checked", "S_partition_drop_liveness_checked", "S_request_in_pdrop_window", "restart"],
         rule="Collections with 1-3 shards, drop-partition/drop-collection at the source with scheduler-chosen shard order, AddPartition racing stream registration, stops.",
         assumptions=[R_REAL],
     ),
